@@ -177,8 +177,12 @@ def make_machine(ctx, server):
             self.specs = None
             self.ok = False
 
-        @initialize(a=small_specs(), b=small_specs())
-        def init(self, a, b):
+        @initialize(a=small_specs(), b=small_specs(), twin=st.booleans())
+        def init(self, a, b, twin):
+            if twin:
+                # B is the same physical data and the same (T,V) grids as A, evaluated with another interpolation order:
+                # everything that identifies a calculation by its grids alone is identical
+                b = dict(a, order=(1 if a["order"] != 1 else 2))
             self.specs = {"A": a, "B": b}
             for name, s in self.specs.items():
                 ds = Dataset(s)
